@@ -37,7 +37,7 @@ PROPS["C16"] = {
         "quick": {"timeout": "20s", "maxsteps": 12000000, "bounds": "19 self-recursion skeletons (8 tail, 5 non-tail, 4 mixing returned and discarded self calls, 2 with other calls after a discarded self call); depth n symbolic in 0..3, accumulator a symbolic int64; base case at concrete depth 1100 (> MaxFrames) for 4 tail skeletons; tail loop of symbolic depth 1..3 entered at call nesting MaxFrames-6..MaxFrames+2 (the last usable frame)", "cross": 2},
         "thorough": {"timeout": "60s", "maxsteps": 12000000, "bounds": "same skeletons; depth n symbolic in 0..6", "cross": 3},
     },
-    "reach": {"C16_Step": ["step"], "C16_Deep": ["deep"], "C16_LastFrame": ["lastframe", "lastframe-unreachable"]},
+    "reach": {"C16_GenRec": ["genrec"], "C16_Step": ["step"], "C16_Deep": ["deep"], "C16_LastFrame": ["lastframe", "lastframe-unreachable"]},
     "assumptions": [
         "frame-space constancy at depth 10^6 is claimed by induction: at every tail re-entry observed at the VM's poll, frame index and operand-stack height equal their values at first entry (checked for all arguments within the depth bound) plus the concrete base case at depth 1100; depth 10^6 itself is not executed",
         "the VM probe is the engine's interception of atomic.LoadInt64(&v.aborting) (once per VM instruction); natively the same probe is not available, so the replay checks results only",
@@ -177,7 +177,7 @@ PROPS["C11"] = {
         "quick": {"timeout": "20s", "maxsteps": 12000000, "bounds": "20 scope programs (copied closures, a block-scoped variable captured by a closure that outlives the block followed by for-in loops re-using its slot, compound assignment, ++/--, selector assignment through global/local/free variables, closures, shadowing, loops, variadics, recursion, failing operations) x {function body, module function, consistent renaming, each marked sub-expression wrapped in an immediately-invoked function literal}; inputs a, b int64 (or -1..3 where they bound loops/recursion), c bool. Generated grammar family (gen.go): the 542 bodies of <= 2 nodes (and nestings W(W'(atom))) without top-level break/continue/return, each at top level vs inside a function body, inside a closure (captured parameter and locals) and inside a module function", "cross": 2},
         "thorough": {"timeout": "60s", "maxsteps": 12000000, "bounds": "as quick. Generated grammar family: the 1893 relocatable bodies of <= 3 nodes, same four placements", "cross": 3},
     },
-    "reach": {"C11_GenRelocate": ["genrelocate"], "C11_Relocate": ["relocate"]},
+    "reach": {"C11_GenRec": ["genrec"], "C11_GenRelocate": ["genrelocate"], "C11_Relocate": ["relocate"]},
     "assumptions": ["transformations are applied to marked program templates by text substitution in the harness; programs in which a closure outlives the loop iteration that declared a captured variable (the documented scope-dependent case) are not in the list",
                     "failing programs are compared by error class, not by position text (positions legitimately move)"],
     "outside": "programs and transformations beyond the list",
@@ -191,7 +191,7 @@ PROPS["C12"] = {
         "quick": {"timeout": "20s", "maxsteps": 12000000, "bounds": "11 constant-heavy programs (source modules imported twice, nested functions, two builtin modules math/text, two object modules without __module_name__ holding bools/undefined/arrays/maps/errors/bytes, a failing program with a multi-line position) + 44 catalog + 9 failing programs compiled with the raw Compiler API. De-duplication: run before and after the real RemoveDuplicates on the same symbolic inputs a, b (int64), c (bool); globals, error text and positions compared; pool soundness checked. Write/read-back: the same programs, with and without de-duplication first, run before and after the codec; pools of 2..4 constants with symbolic int/float/char/string values. Generated grammar family (gen.go): every statement sequence of <= 2 nodes from 10 atoms (r += x, x = y + 1, y++, m.k += x, block-scoped declaration, immediately-invoked closure reading a captured variable, closure writing a captured variable, break, continue, return) and 8 wrappers (if, if-else, if with init, 3-clause for, for-in, condition-only for, endless for with break, function literal + call), plus every nesting W(W'(atom)), rendered in 4 variable-placement contexts (top level: globals; function body: parameters/locals; closure: captured parameter/locals; loop inside a function) - 1029 programs, inputs a, b full int64 and c bool symbolic: compile, run; RemoveDuplicates, run; write out/read back, run", "cross": 2},
         "thorough": {"timeout": "60s", "maxsteps": 12000000, "bounds": "as quick. Generated grammar family (gen.go): every statement sequence of <= 3 nodes (10 atoms, 8 wrappers) in 4 variable-placement contexts - 9262 programs, inputs a, b full int64 and c bool symbolic: compile, run; RemoveDuplicates, run; write out/read back, run", "cross": 3},
     },
-    "reach": {"C12_Gen": ["gen"], "C12_WriteRead": ["writeread"], "C12_Dedup": ["dedup"], "C12_SymbolicPool": ["pool"]},
+    "reach": {"C12_ModulePositions": ["modpos"], "C12_Gen": ["gen"], "C12_WriteRead": ["writeread"], "C12_Dedup": ["dedup"], "C12_SymbolicPool": ["pool"]},
     "assumptions": [
         "encoding/gob is reflection-driven and cannot be executed by the engine: in the engine the codec is a MODEL (harness/c12.go gobModel: structurally equal value, every pointer fresh so the true/false/undefined singletons are lost, func fields dropped, empty slices and maps nil, SourceFile.set unset) followed by the REAL fixDecodedObject; the native replay of every counterexample and of sampled passing paths uses the real Bytecode.Encode/Decode, which is what validates the model",
         "constants are the kinds the compiler and RemoveDuplicates accept at top level (int, float, char, string, compiled function, immutable map); RemoveDuplicates panics by design on any other top-level constant type",
@@ -304,7 +304,7 @@ PROPS["C18"] = {
         "quick": {"timeout": "20s", "maxsteps": 12000000, "casecap": 128, "bounds": "decoder input: every byte string of length 1..4 (all 256 values per byte): no panic, fails iff encoding/json.Valid (executed by the engine) rejects it, scalar documents and one-element arrays compared with Go's strconv reading of the literal; round trip on values of depth <= 1: ints and floats from boundary sets, strings of 0..2 symbolic ASCII bytes (incl. control characters, quotes, backslash), bools, undefined, arrays/maps of 0..2 such values", "cross": 2},
         "thorough": {"timeout": "60s", "maxsteps": 12000000, "casecap": 128, "bounds": "decoder input of length 1..5; round-trip strings of arbitrary bytes", "cross": 3},
     },
-    "reach": {"C18_DecodeBytes": ["valid", "invalid"], "C18_RoundTrip": ["roundtrip"]},
+    "reach": {"C18_DecodeInContext": ["ctx-valid", "ctx-invalid"], "C18_DecodeBytes": ["valid", "invalid"], "C18_RoundTrip": ["roundtrip"]},
     "assumptions": [
         "the reference for validity is Go's encoding/json.Valid (its scanner is executed by the engine); the reference for decoded values is strconv.ParseInt/ParseFloat of the literal text and the body of plain ASCII strings (encoding/json's value decoder is reflective and not executed)",
         "ints in the round trip come from a boundary set (decimal rendering)",
